@@ -10,10 +10,11 @@ stored value at its commit) or fails with `ErrConflict` (another transaction wro
 between its read timestamp and its commit: then the value it read is some older stored value).
 The outcome is an input of the model (`TxnOut`).
 
-`updateLease` is the code as it is: it assigns `seq.next` and `seq.leased` **inside** the
-closure, before the outcome of the commit is known. `updateLeaseFixed` is the intended
-behaviour (`fix:` of finding F9, *not* today's code): the fields are assigned only after the
-commit succeeded.
+`updateLease` is the code as it is (since badger commit 54a0fc5, the fix of finding F9): the
+closure works on local variables and `seq.next` / `seq.leased` are assigned only after
+`db.Update` returned nil. `updateLeaseOld` is the code before that commit: it assigned
+`seq.next` and `seq.leased` **inside** the closure, before the outcome of the commit was known
+(kept for the historical witness only).
 -/
 namespace Badger
 
@@ -44,11 +45,11 @@ def SeqSys.find (s : SeqSys) (id : Nat) : Option SeqObj := s.objs.find? (·.id =
 def SeqSys.put (s : SeqSys) (o : SeqObj) : SeqSys :=
   { s with objs := o :: s.objs.filter (·.id != o.id) }
 
-/-- `Sequence.updateLease` as it is (db.go:1331). Returns the object, the stored value and
+/-- `Sequence.updateLease` BEFORE commit 54a0fc5 (historical). Returns the object, the stored value and
     whether `db.Update` returned nil. The closure reads the key (`ErrKeyNotFound` ⇒ `next = 0`),
     computes `lease = next + bandwidth` (uint64 arithmetic), writes it and assigns
     `seq.leased = lease`; only then does `Update` try to commit. -/
-def updateLease (o : SeqObj) (stored : Option Nat) (out : TxnOut) : SeqObj × Option Nat × Bool :=
+def updateLeaseOld (o : SeqObj) (stored : Option Nat) (out : TxnOut) : SeqObj × Option Nat × Bool :=
   match out with
   | .ok =>
     let next := stored.getD 0
@@ -59,8 +60,11 @@ def updateLease (o : SeqObj) (stored : Option Nat) (out : TxnOut) : SeqObj × Op
     let lease := u64 (next + o.bandwidth)
     ({ o with next := next, leased := lease }, stored, false)     -- fields kept, nothing persisted
 
-/-- the intended behaviour (`fix:`): `seq.next/seq.leased` are assigned after `Update` returned nil. -/
-def updateLeaseFixed (o : SeqObj) (stored : Option Nat) (out : TxnOut) : SeqObj × Option Nat × Bool :=
+/-- `Sequence.updateLease` as it is: `next`/`lease` are locals of the closure (`ErrKeyNotFound` ⇒
+    `next = 0`, `lease = next + bandwidth` in uint64, the lease is written), and
+    `seq.next/seq.leased` are assigned after `Update` returned nil; on any error the object is
+    unchanged. -/
+def updateLease (o : SeqObj) (stored : Option Nat) (out : TxnOut) : SeqObj × Option Nat × Bool :=
   match out with
   | .ok =>
     let next := stored.getD 0
@@ -68,7 +72,7 @@ def updateLeaseFixed (o : SeqObj) (stored : Option Nat) (out : TxnOut) : SeqObj 
     ({ o with next := next, leased := lease }, some lease, true)
   | .conflict _ => (o, stored, false)
 
-/-- which `updateLease` a run uses -/
+/-- which `updateLease` a run uses (today's, or the historical one) -/
 abbrev LeaseFn := SeqObj → Option Nat → TxnOut → SeqObj × Option Nat × Bool
 
 inductive SeqRes
